@@ -197,7 +197,10 @@ def gen_op(r, dw, weights, cfg):
             return {"op": "delete_channel", "view": view, "cls": cls, "name": name if name != cls else None}
         return {"op": "delete_channel", "view": [], "cls": r.choice(cfg["channels"]), "name": None}
     if kind == "set_ncomp":
-        return {"op": "set_ncomp", "branch": r.randrange(64), "n": r.randint(1, 5)}
+        op = {"op": "set_ncomp", "branch": r.randrange(64), "n": r.randint(1, 5)}
+        if r.random() < 0.15:
+            op["odd"] = r.choice(["part", "multi"])  # reject fault: not exactly one entire branch — must be refused, nothing left behind
+        return op
     if kind == "group":
         return {"op": "group", "view": gen_node_view(r, ref), "name": r.choice(["g1", "g2", "g3"])}
     if kind == "record":
@@ -260,7 +263,11 @@ def gen_op(r, dw, weights, cfg):
     if kind == "connect":
         cls = r.choice(cfg["synapses"])
         name = (cls[:4] + "B" if r.random() < 0.5 else cls[:3].lower() + "_syn") if r.random() < 0.2 else None  # "<name>_<param>" keys with an underscore in the name
-        return {"op": "connect", "pre": r.randrange(1 << 16), "post": r.randrange(1 << 16), "cls": cls, "name": name}
+        op = {"op": "connect", "pre": r.randrange(1 << 16), "post": r.randrange(1 << 16), "cls": cls, "name": name}
+        if r.random() < 0.15:
+            k_ = r.randint(2, 3)
+            op["pre_k"], op["post_k"] = k_, (k_ if r.random() < 0.6 else r.choice([1, k_ + 1]))  # unequal: must be refused
+        return op
     if kind == "init_states":
         return {"op": "init_states"}
     if kind == "move":
